@@ -59,8 +59,13 @@ def nd_name(st, base):
     return f'{base}#{k}'
 
 
+FIXED = {}   # debugging aid: name#k -> concrete value (engine-side replay of a model)
+
+
 def nd_bv(st, base, bits):
     nm = nd_name(st, base)
+    if nm in FIXED:
+        return int(FIXED[nm]) & ((1 << bits) - 1)
     v = z3.BitVec(nm, bits)
     st.ndvals[nm] = v
     return v
